@@ -31,7 +31,7 @@ DIAG = {"cache_hits", "cache_misses", "cache_used", "cache_enabled", "cache_hit"
 KINDS = ["repeat", "other-agent", "edge-replace-same-count", "node-label-change", "episode-add", "apply", "kill-switch-turn", "cfg:k_retrieval", "cfg:ranking",
          "cfg:sim_threshold", "cfg:owner_scope", "cfg:now", "cfg:now-same-day", "cfg:residual_cap", "cfg:tiers", "cfg:exact_recent_days", "cfg:hybrid", "gel-edge-change",
          "cfg:t1.queue_budget", "cfg:t1.decay", "slice-cap", "switch-state", "node-add", "edge-add",
-         "switch-state-reordered", "text-variant", "episode-readd-same-id", "slice-cap-t1", "index-clear-refill", "cfg:perf-master-with-t1-caps", "graph-apply-deltas", "replace-state", "fork-state"]
+         "switch-state-reordered", "text-variant", "episode-readd-same-id", "slice-cap-t1", "index-clear-refill", "cfg:perf-master-with-t1-caps", "graph-apply-deltas", "replace-state", "fork-state", "turn-cache-off"]
 
 
 def gen_history(rng, kind=None):
@@ -44,7 +44,7 @@ def gen_history(rng, kind=None):
     base = {"t2": {"owner_scope": rng.choice(["agent", "agent", "any", "Agent", "AGENT"]),  # the scope is matched case-insensitively "sim_threshold": rng.choice([-1.0, 0.0]), "k_retrieval": rng.choice([2, 4, 8]),
                    "ranking": {"alpha_sim": 0.75, "beta_recency": 0.2, "gamma_importance": 0.05}, "exact_recent_days": 30},
             "t4": {"cache_bust_mode": rng.choice(["on-apply", "none"]), "snapshot_every_n_turns": 1000}}
-    t4_off = rng.random() < 0.4 and kind not in ("apply", "kill-switch-turn")
+    t4_off = rng.random() < (0.8 if kind == "turn-cache-off" else 0.4) and kind not in ("apply", "kill-switch-turn")
     if t4_off:
         base["t4"]["enabled"] = False  # the state version never moves: the turn-level cache can serve hits
     variant = rng.choice(["lru", "lru", "bytes"])
@@ -84,7 +84,7 @@ def gen_history(rng, kind=None):
         if kind == "text-variant":
             # the same words spelled differently (case, runs of blanks): another query string for retrieval
             text = rng.choice([text.upper(), text.replace(" ", "  "), " " + text + " ", text.title(), text.replace(" ", "\t")])
-        if kind == "other-agent":
+        if kind in ("other-agent", "turn-cache-off"):
             ag2 = "B" if agent == "A" else "A"
         ops.append({"op": "turn", "agent": ag2, "text": text})
         agent = ag2
@@ -204,6 +204,14 @@ def apply_mutation(m, envs, world2, cfgs, slice_holder):
                         ge.pop(k, None)
                     else:
                         ge[k] = {"id": k, "src": min(a, b), "dst": max(a, b), "weight": wv, "rel": "coact", "attrs": {}}
+        elif kind == "turn-cache-off":
+            # the turn-level cache switched off in the configuration while its manager (with entries) stays on the state; the
+            # next ask comes from the other agent, and a memory is added too
+            cfg["t4"].setdefault("cache", {})["enabled"] = False
+            if m["i"] % 2:
+                from vlib.harness import build_index
+                tmp = build_index([{"id": f"tc{m['i']}", "owner": "A", "text": "hello world moon river cat", "ts": "2023-11-14T00:00:00Z", "vec": "enc", "aux": {"importance": 1.0}}])
+                st["mem_index"].add(tmp._eps[0])
         elif kind == "cfg:k_retrieval":
             cfg["t2"]["k_retrieval"] = 1 if cfg["t2"]["k_retrieval"] != 1 else 8
         elif kind == "cfg:ranking":
